@@ -7,12 +7,14 @@ import (
 	"flag"
 	"fmt"
 	"go/ast"
+	"go/build"
 	"go/constant"
 	"go/parser"
 	"go/token"
 	"go/types"
 	"os"
 	"path/filepath"
+	"regexp"
 	"sort"
 	"strings"
 	"unicode/utf8"
@@ -24,14 +26,22 @@ func (f *fakeImporter) Import(path string) (*types.Package, error) {
 	if p, ok := f.pkgs[path]; ok {
 		return p, nil
 	}
-	name := path
-	if i := strings.LastIndex(path, "/"); i >= 0 {
-		name = path[i+1:]
-	}
+	name := stubPkgName(path)
 	p := types.NewPackage(path, name)
 	p.MarkComplete()
 	f.pkgs[path] = p
 	return p, nil
+}
+
+// stubPkgName guesses the package name of an import path: the last element, or the one before a
+// major-version element (github.com/golang-jwt/jwt/v5 is package jwt).
+func stubPkgName(path string) string {
+	el := strings.Split(path, "/")
+	name := el[len(el)-1]
+	if len(el) > 1 && len(name) > 1 && name[0] == 'v' && strings.Trim(name[1:], "0123456789") == "" {
+		name = el[len(el)-2]
+	}
+	return name
 }
 
 type pkgInfo struct {
@@ -42,12 +52,67 @@ type pkgInfo struct {
 	pkg   *types.Package
 }
 
+// buildCtx is the build context whose file set the generated facts describe: the library as shipped
+// for linux/amd64, no build tags (in particular without the `verif` tag under which the harness
+// compiles its hooks in), cgo as in the default context.
+func buildCtx() *build.Context {
+	c := build.Default
+	c.GOOS, c.GOARCH = "linux", "amd64"
+	c.BuildTags = nil
+	c.UseAllFiles = false
+	return &c
+}
+
+// tcDiag: what the type checker complained about in one package. The stub importer hands out empty
+// packages, so every reference to a symbol of an imported package is reported ("undefined: fmt.Errorf",
+// and in its wake "imported and not used"); those are counted as `stub`. Everything else is `other`
+// and worth a look: a file set that does not compile (two files of different platforms declaring the
+// same name, a hook file taken without its tag, ...) silently degrades the type information the fact
+// extractors rely on.
+type tcDiag struct {
+	total, stub, other int
+	otherMsgs          []string
+	skipped            []string // non-test .go files left out by build constraints / naming
+}
+
+var (
+	pkgCache    = map[string]*pkgInfo{}
+	tcDiags     = map[string]*tcDiag{} // by package directory
+	stubUndefRE = regexp.MustCompile(`^undefined: (\w+)\.\w+$`)
+)
+
+// oneLine makes a message safe for a `--` line comment of a generated Lean file.
+func oneLine(s string) string {
+	s = strings.Map(func(r rune) rune {
+		if r == '\n' || r == '\r' || r == '\t' || r < 0x20 || r == 0x7f || r == 0x2028 || r == 0x2029 {
+			return ' '
+		}
+		return r
+	}, s)
+	s = strings.Join(strings.Fields(s), " ")
+	if len(s) > 200 {
+		s = s[:200]
+		for !utf8.ValidString(s) {
+			s = s[:len(s)-1]
+		}
+		s += " ..."
+	}
+	return s
+}
+
 func loadPkg(repo, dir string) (*pkgInfo, error) {
+	key := repo + "\x00" + dir
+	if p, ok := pkgCache[key]; ok {
+		return p, nil
+	}
+	diag := &tcDiag{}
 	fset := token.NewFileSet()
-	ents, err := os.ReadDir(filepath.Join(repo, dir))
+	abs := filepath.Join(repo, dir)
+	ents, err := os.ReadDir(abs)
 	if err != nil {
 		return nil, err
 	}
+	bc := buildCtx()
 	var files []*ast.File
 	for _, e := range ents {
 		n := e.Name()
@@ -55,34 +120,28 @@ func loadPkg(repo, dir string) (*pkgInfo, error) {
 			continue
 		}
 		if strings.HasPrefix(n, "verif_") { // our own hooks are not part of the modelled code
+			diag.skipped = append(diag.skipped, dir+"/"+n)
 			continue
 		}
-		f, err := parser.ParseFile(fset, filepath.Join(repo, dir, n), nil, parser.ParseComments)
+		// GOOS/GOARCH file name suffixes, //go:build and // +build lines (hence also `//go:build ignore`
+		// and `//go:build verif`), cgo files without cgo: exactly what `go build` would leave out
+		match, err := bc.MatchFile(abs, n)
+		if err != nil {
+			return nil, fmt.Errorf("%s/%s: %v", dir, n, err)
+		}
+		if !match {
+			diag.skipped = append(diag.skipped, dir+"/"+n)
+			continue
+		}
+		f, err := parser.ParseFile(fset, filepath.Join(abs, n), nil, parser.ParseComments)
 		if err != nil {
 			return nil, err
 		}
-		// skip files with build constraints that exclude linux (keep it simple: honour //go:build !linux / windows)
-		skip := false
-		for _, cg := range f.Comments {
-			if cg.Pos() > f.Package {
-				break
-			}
-			for _, c := range cg.List {
-				if strings.HasPrefix(c.Text, "//go:build") {
-					t := c.Text
-					if strings.Contains(t, "windows") && !strings.Contains(t, "!windows") {
-						skip = true
-					}
-					if strings.Contains(t, "!linux") || strings.Contains(t, "verif") && !strings.Contains(t, "!verif") {
-						skip = true
-					}
-				}
-			}
-		}
-		if skip {
-			continue
-		}
 		files = append(files, f)
+	}
+	if len(files) == 0 {
+		return nil, fmt.Errorf("OBLIGATION translator/files: no Go file of %s/ is part of a linux/amd64 build without tags; "+
+			"nothing can be extracted from this package (moved? renamed? all files behind a build constraint?)", dir)
 	}
 	info := &types.Info{
 		Defs:       map[*ast.Ident]types.Object{},
@@ -90,9 +149,48 @@ func loadPkg(repo, dir string) (*pkgInfo, error) {
 		Types:      map[ast.Expr]types.TypeAndValue{},
 		Selections: map[*ast.SelectorExpr]*types.Selection{},
 	}
-	conf := types.Config{Importer: &fakeImporter{pkgs: map[string]*types.Package{}}, Error: func(error) {}}
+	imp := &fakeImporter{pkgs: map[string]*types.Package{}}
+	var errs []types.Error
+	conf := types.Config{Importer: imp, Error: func(e error) {
+		if te, ok := e.(types.Error); ok {
+			errs = append(errs, te)
+		} else {
+			errs = append(errs, types.Error{Fset: fset, Msg: e.Error()})
+		}
+	}}
 	pkg, _ := conf.Check(dir, fset, files, info)
-	return &pkgInfo{name: dir, fset: fset, files: files, info: info, pkg: pkg}, nil
+	// names under which imported packages are visible in this package (stub name or explicit alias)
+	impNames := map[string]bool{}
+	for _, p := range imp.pkgs {
+		impNames[p.Name()] = true
+	}
+	for _, f := range files {
+		for _, is := range f.Imports {
+			if is.Name != nil {
+				impNames[is.Name.Name] = true
+			}
+		}
+	}
+	for _, te := range errs {
+		diag.total++
+		m := stubUndefRE.FindStringSubmatch(te.Msg)
+		if (m != nil && impNames[m[1]]) || strings.HasSuffix(te.Msg, "imported and not used") {
+			diag.stub++
+			continue
+		}
+		diag.other++
+		pos := te.Fset.Position(te.Pos)
+		where := dir
+		if pos.IsValid() {
+			where = fmt.Sprintf("%s/%s:%d:%d", dir, filepath.Base(pos.Filename), pos.Line, pos.Column)
+		}
+		diag.otherMsgs = append(diag.otherMsgs, oneLine(where+": "+te.Msg))
+	}
+	sort.Strings(diag.otherMsgs) // independent of the checker's internal order
+	tcDiags[dir] = diag
+	p := &pkgInfo{name: dir, fset: fset, files: files, info: info, pkg: pkg}
+	pkgCache[key] = p
+	return p, nil
 }
 
 func leanStr(s string) string {
@@ -203,9 +301,46 @@ func main() {
 	step("Literals.lean", genLiterals)       // C12 size literals (literals.go)
 	step("FactsAlloc.lean", genFactsAlloc)   // C13 allocations sized by a variable (facts_alloc.go)
 	step("Facts.lean", genFacts)
+	warnTypeCheck()
 	if failed > 0 {
 		os.Exit(3)
 	}
+}
+
+// warnTypeCheck reports on stderr what Facts.lean records: the type checker's complaints are not
+// fatal (the extractors are syntactic and tolerate missing type information) but must not go unseen.
+func warnTypeCheck() {
+	var dirs []string
+	total, other := 0, 0
+	for d, g := range tcDiags {
+		dirs = append(dirs, d)
+		total += g.total
+		other += g.other
+	}
+	sort.Strings(dirs)
+	if total == 0 {
+		return
+	}
+	fmt.Fprintf(os.Stderr, "gen: warning: %d type-check warnings, %d of them not explained by the stub importer (see CedarGen/Facts.lean)\n", total, other)
+	n := 0
+	for _, d := range dirs {
+		for _, m := range tcDiags[d].otherMsgs {
+			if n == 10 {
+				fmt.Fprintf(os.Stderr, "gen: warning:   ... and %d more\n", other-n)
+				return
+			}
+			fmt.Fprintf(os.Stderr, "gen: warning:   %s\n", m)
+			n++
+		}
+	}
+}
+
+// emptyTable: the error for a generated fact table that came out empty. Theorems of the form
+// "every row of the table satisfies ..." hold vacuously over an empty table; an empty table means
+// the extraction pattern no longer matches the library, not that the library is clean.
+func emptyTable(src, table, theorem, pattern string) error {
+	return fmt.Errorf("OBLIGATION translator/%s: generated table %s is EMPTY: %s. The theorem(s) %s would hold vacuously over it, "+
+		"so nothing is generated. Teach tools/gen/%s.go the library's new shape", src, table, pattern, theorem, src)
 }
 
 func fatal(err error) {
